@@ -7,7 +7,7 @@ use std::task::Context;
 
 // @verif id=VS.ack props=C07,C04,C11 tier=quick timeout=900
 // @functions VirtualSocket::maybe_send_ack, VirtualSocket::send_ack, VirtualSocket::send_control_packet, VirtualSocket::outgoing_header, VirtualSocket::rx_window, VirtualSocket::immediate_ack_to_transmit, VirtualSocket::should_send_window_update, VirtualSocket::ack_to_transmit, UtpHeader::serialize, UtpSocket::try_poll_send_to
-// @bounds established socket (MSS 16, receive buffer 48); consumed_but_unacked_bytes ANY usize; last ACK sent 0..=3 behind the last consumed number (sequence numbers at the 16-bit wrap); last advertised window zero or not; delayed-ACK timer idle or armed anywhere within +-60 ms of now; transport ready or blocked
+// @bounds established socket (MSS 16, receive buffer 48); consumed_but_unacked_bytes ANY usize; last consumed number 1, last ACK sent 0..=3 behind it (i.e. 1, 0, 65535, 65534: across the 16-bit wrap); last advertised window zero or not; delayed-ACK timer idle or armed anywhere within +-60 ms of now; transport ready or blocked
 // @asserts >= 2*MSS unacknowledged bytes, a re-opened (or newly closed) window, or an expired delayed-ACK timer with something to acknowledge => exactly one ST_STATE goes out NOW carrying ack_nr == last consumed, the honest window, our connection id, version 1; bookkeeping reset; otherwise nothing is sent and (if bytes are pending) the delayed-ACK timer is armed no later than now + 40 ms and never postponed; nothing pending => silence; blocked transport => nothing recorded, nothing reset
 // @assumes reassembly queue empty (no SACK to attach); state Established
 // @unwindset make_tx_at=9,__vs::record=37
@@ -24,7 +24,10 @@ fn vs_maybe_send_ack_policy() {
     let armed: bool = kani::any();
     let pending: bool = kani::any();
     t.vsock.consumed_but_unacked_bytes = consumed;
-    t.vsock.last_sent_ack_nr = SeqNr(PEER_LAST.wrapping_sub(behind));
+    // the receive position is 1 (just past the 16-bit wrap); the last ACK sent is 1, 0, 65535 or 65534
+    const POS: u16 = PEER_LAST.wrapping_add(2);
+    t.vsock.last_consumed_remote_seq_nr = SeqNr(POS);
+    t.vsock.last_sent_ack_nr = SeqNr(POS.wrapping_sub(behind));
     t.vsock.last_sent_window = if lsw_zero { 0 } else { 48 };
     let deadline = now_at((T0_US as i64 + timer_rel_ms as i64 * 1000) as u64);
     if armed {
@@ -52,16 +55,16 @@ fn vs_maybe_send_ack_policy() {
         assert!(sent && sent_n() == 1, "C07: an ACK that is due is sent immediately, exactly once");
         let (h, n) = sent_header(0).unwrap();
         assert!(h.htype == Type::ST_STATE && n == sent_total(0), "C11: an ACK is a bare state packet");
-        assert!(h.ack_nr == SeqNr(PEER_LAST), "C04: the acknowledgement number is the last in-order sequence number received");
+        assert!(h.ack_nr == SeqNr(POS), "C04: the acknowledgement number is the last in-order sequence number received");
         assert!(h.connection_id == SeqNr(CONN_ID_SEND), "C11: outgoing packets carry the connection id owed to the peer");
         assert!(h.wnd_size == 48, "C04: the advertised window is the free receive space (whole MSS multiples)");
         assert!(h.seq_nr == SeqNr(OUR_SEQ), "C17: a state packet does not consume a sequence number");
-        assert!(t.vsock.consumed_but_unacked_bytes == 0 && t.vsock.last_sent_ack_nr == SeqNr(PEER_LAST) && t.vsock.last_sent_window == 48
+        assert!(t.vsock.consumed_but_unacked_bytes == 0 && t.vsock.last_sent_ack_nr == SeqNr(POS) && t.vsock.last_sent_window == 48
             && t.vsock.timers.ack_delay_timer == Timer::Idle, "C07: sending an ACK resets the pending-ACK bookkeeping");
     } else {
         assert!(!sent && sent_n() == 0, "C07: nothing new to acknowledge and nothing due => the endpoint stays silent");
         if !pending {
-            assert!(t.vsock.last_sent_ack_nr == SeqNr(PEER_LAST.wrapping_sub(behind)), "C04: no ACK recorded as sent");
+            assert!(t.vsock.last_sent_ack_nr == SeqNr(POS.wrapping_sub(behind)), "C04: no ACK recorded as sent");
         }
         if !must_ack && !timer_fired && consumed > 0 {
             match t.vsock.timers.ack_delay_timer {
